@@ -49,3 +49,12 @@ claim("C09", "value provenance over go/ssa (def-use chains through static callee
       "Decides for every SetStatus call site of the server that the key is value-identical to an argument of the same object's AddRcpt/Rcpt (only elements of a list whose every store appends the unmodified parameter); lists on objects that outlive a transaction are reset at transaction start; accepting methods append once; a status-all loop is final; a skip counter advances on every reporting path of the callback; rewriting layers translate back and never twice. The next hop's own reply count/order is not decided.",
       "trusts go/types, go/ssa, go/cfg; go-smtp's LMTP client reports statuses in acceptance order (read in the pinned version)", "DESIGN.md §3 C09")
 PENDING.pop("C09", None)
+
+claim("C05", "who-may-call rules, dominance/bracketing queries over go/cfg (policy loops around the dial, REQUIRETLS comparisons before MAIL, quarantine before sending), store-placement rules for security levels, SSA freshness of weakened TLS configurations, immutability of message-wide metadata",
+      "Decides: only attemptMX dials (call chain connect←attemptMX←newConn←connectionForDomain); complete CheckMX loop before and complete CheckConn loop after the dial with errors returning and closing; levels are per-attempt locals stored only after all checks; policies are skipped only under TLSRequireOverride&&allowSecOverride and such deliveries never pool their connections; REQUIRETLS comparisons dominate MAIL and bypass the pool; each TLS weakening lowers the level and is applied to a private clone only; message metadata is not written per destination; quarantined messages reach no sending call. Library behaviour (MTA-STS, X.509, DNSSEC) is trusted.",
+      "trusts go/types, go/cfg, go/ssa; policy implementations are judged only through their interface use", "DESIGN.md §3 C05")
+PENDING.pop("C05", None)
+claim("C13", "edge-dominance queries over go/cfg of verifyDANE and daneDelivery.CheckConn (accept only over a verification success edge; fail-closed worlds obtained by removing condition edges), lexical record-class rules, nil-ness refinement of the caller",
+      "Decides: every accepting return needs the success edge of an EE-record verification (record from the usage-3 list against PeerCertificates[0]) or of the X.509 chain verification of PeerCertificates[0]; roots are only CA certificates matching a usage-2 record; options carry the server name and an initially empty root pool; usage/selector/matching-type filtering; no certificate access without a completed handshake; records without TLS and usable-records-without-match return an error; only-unusable is neutral; CheckConn grants the authenticated level only on (true,nil), propagates errors and defers on lookup failure.",
+      "trusts go/types, go/cfg; A2 for (dns.TLSA).Verify and (*x509.Certificate).Verify", "DESIGN.md §3 C13")
+PENDING.pop("C13", None)
